@@ -1150,3 +1150,46 @@ class Inter:
         if k == "phi":
             return N("phi", tuple(_dedup([rec(x) for x in n[1]])))
         return n
+
+
+# ---------------------------------------------------------------- value preservation ("exactness")
+_PRESERVING_CALLS = {"into", "from", "clone", "deref", "deref_mut", "as_ref", "as_mut", "borrow", "to_owned", "get", "load", "try_from", "try_into",
+                     "expect", "unwrap", "copied", "cloned", "as_slice", "as_bytes", "to_vec", "into_static", "freeze", "branch", "into_inner",
+                     "new", "as_str", "into_boxed_slice", "into_vec", "copy_from_slice", "from_static"}
+_INT_BITS = {"u8": 8, "i8": 8, "u16": 16, "i16": 16, "u32": 32, "i32": 32, "u64": 64, "i64": 64, "usize": 64, "isize": 64, "u128": 128, "i128": 128,
+             "bool": 1}
+
+
+def inexact_steps(node, is_source, min_bits=None, extra_calls=()):
+    """What lies between `node` and its sources (nodes for which is_source(n) holds) other than moves, joins and value-preserving
+    conversions: arithmetic, non-conversion calls, and integer casts to fewer than `min_bits` bits. Empty list = the value IS the source."""
+    out = []
+    stk = [node]
+    seen = set()
+    while stk:
+        x = stk.pop()
+        if id(x) in seen:
+            continue
+        seen.add(id(x))
+        if is_source(x):
+            continue
+        k = x.kind
+        if k in ("ref", "deref", "downcast", "discr"):
+            stk.append(x[1])
+        elif k == "field":
+            stk.append(x[1])
+        elif k == "cast":
+            bits = _INT_BITS.get(str(x[2]))
+            if min_bits is not None and bits is not None and bits < min_bits and "IntToInt" in str(x[3]):
+                out.append("narrowing cast to %s" % x[2])
+            stk.append(x[1])
+        elif k == "phi":
+            stk.extend(x[1])
+        elif k == "call" and (x[6] in _PRESERVING_CALLS or x[6] in extra_calls) and x[3]:
+            stk.append(x[3][0])
+        elif k in ("param", "const", "constx", "agg", "cycle"):
+            if k != "param":
+                out.append(fmt(x)[:80])
+        else:
+            out.append(fmt(x)[:100])
+    return out
